@@ -118,6 +118,27 @@ class World(object):
             self.forms.append([obj, t, str(obj), objlang, formula_snapshot(obj)])
         elif kind == 'fair':
             self.fairs.append(op[1])
+        elif kind == 'edit':
+            # the CALLER edits its own structure between calls, through the live label set (the only
+            # label mutator the API offers); later calls must answer for the structure as it now is
+            if not self.structs:
+                return None
+            _, i, st_, atom_k, add = op
+            i %= len(self.structs)
+            kripke, snap, K, naming, how = self.structs[i]
+            s_ = st_ % K['n']
+            atom = ('p', 'q', 'p', 'q', 'r_new')[atom_k % 5]
+            name = graphs.NAMINGS[naming](s_)
+            lab = kripke.labels(name)
+            if add:
+                lab.add(atom)
+            else:
+                lab.discard(atom)
+            labels = [list(l) for l in K['labels']]
+            labels[s_] = sorted(x for x in kripke.labels(name) if isinstance(x, str))
+            self.structs[i] = [kripke, km.snapshot(kripke), dict(K, labels=labels), naming, how]
+            self.memo = dict((k, v) for k, v in self.memo.items() if k[0] != i)
+            self.flags.add('caller edited a structure between calls')
         elif kind == 'mutate':
             if isinstance(self.last, set):
                 if op[1]:
@@ -397,6 +418,10 @@ def machine_shard(st, shard, nshards, payload):
         def repeat_earlier_call_again(self, n):
             self._do(['repeat', n, False])
 
+        @rule(i=idx, st_=hs.integers(0, 3), atom=hs.integers(0, 4), add=hs.booleans())
+        def caller_edits_structure(self, i, st_, atom, add):
+            self._do(['edit', i, st_, atom, add])
+
         @rule(clear=hs.booleans())
         def mutate_returned_set(self, clear):
             self._do(['mutate', clear])
@@ -451,7 +476,8 @@ def run(ctx):
                 'namings), formula objects of CTL / LTL / CTL* (incl. CTL-shaped and path formulas '
                 'as CTL* objects, so out-of-logic calls occur), fairness lists; rules: add structure '
                 '/ formula / fairness list, check(i, j, F or None, text or object, checker), '
-                'clone-and-check, repeat an earlier call (directly or on a clone), mutate the last returned set.  Exceptions are outcomes.  '
+                'clone-and-check, repeat an earlier call (directly or on a clone), mutate the last returned set, the caller '
+                'edits a label set of one of its structures between calls.  Exceptions are outcomes.  '
                 'Invariant after every rule: every structure equals its deep snapshot (states, '
                 'transitions, contents AND identity of every label and successor set, S0, the labelling dict), every '
                 'formula object is unchanged (tree, print, heights, identity of every node), the caller\'s F and parser objects and interpreter-wide state (recursion limit, random state, '
